@@ -383,7 +383,7 @@ mp_out(struct sec * S, struct obj * p, int reg, int prefix)
 {
 	if (prefix) sec_str(S, "p");
 	sec_u64(S, wrap_block_ordinal(p));
-	if (reg) sec_str(S, "a");
+	if (reg) sec_str(S, "!");
 	if (p != NULL) memset(p, 0x5a, sizeof(*p));	/* the client uses its object */
 }
 
